@@ -71,7 +71,7 @@ fn content(rng: &mut Rng, cl: &mut Classes) -> (Vec<u8>, &'static str) {
     let o = GenOpts { max_depth: 3, max_width: 3, ..GenOpts::common() };
     let mut feats = Feats::default();
     match rng.below(10) {
-        0 => ((*rng.pick(&[&b"[1]"[..], b"{}", b"1 = 2\n", b"\"a\" = 1\n", b"[a]\n", b"a: b\n", b"k = \"a: b\"\n", b"", b"", b"\n", b"# only a comment\n"])).to_vec(), "valid_in_several_formats"),
+        0 => ((*rng.pick(&[&b"[1]"[..], b"{}", b"1 = 2\n", b"\"a\" = 1\n", b"[a]\n", b"a: b\n", b"k = \"a: b\"\n", b"", b"", b"\n", b"# only a comment\n", b"{a: 1}\n", b"{'k': 'v', n: [1, 2,]}\n", b"[a, b]\n", b"{\n  a: 1, # why\n  b: 2\n}\n", b"\xef\xbb\xbfk: v\n"])).to_vec(), "valid_in_several_formats"),
         1 => ((*rng.pick(&[&b"{\"a\": [}"[..], b"\x01\x02 nothing", b"a: [unclosed\n", b"= 1\n", b"\xc1"])).to_vec(), "invalid"),
         2 if rng.chance(1, 3) => {
             // a large document: a multi-line string far above the stdout buffer whose last line is long, and
